@@ -151,7 +151,7 @@ func oracleC11(c c11Case) error {
 	}
 	var terrs []string
 	conf := types.Config{Importer: mapImporter(f.pkgs), Error: func(err error) {
-		if !strings.Contains(err.Error(), "imported and not used") && !strings.Contains(err.Error(), "and not used") {
+		if !(strings.Contains(err.Error(), "not used") && strings.Contains(err.Error(), "hx_")) {
 			terrs = append(terrs, err.Error())
 		}
 	}}
